@@ -26,7 +26,7 @@ def gen(run):
 
 
 def correspond(run, corr):
-    wc.correspond(run, corr, CORR_PROFILES, 10000, 150000, in_domain=(None if ID in ("C05", "C14") else wc.domain_of(ID)))
+    wc.correspond(run, corr, CORR_PROFILES, 10000, 150000, in_domain=(None if ID == "C14" else wc.domain_of(ID)))
     if ID == "C03":
         # interleaving model vs the real code under forced schedules (one socket-thread operation x one tick, every boundary)
         wc.sched_correspond(run, corr)
